@@ -4,8 +4,9 @@ CONSTANTS
   Copy = "pooled"
   Unbinder = "swapdelete"
   PadFix = TRUE
+  Lock = "held"
 INIT Init
 NEXT Next
-INVARIANTS TypeOK ModelBindingsAreSet ModelEachBoundOnce ModelNoneAfterUnbind ModelRewritten ModelRestUnchanged ModelCallerUntouched 
+INVARIANTS TypeOK ModelBindingsAreSet ModelEachBoundOnce ModelNoneAfterUnbind ModelRewritten ModelRestUnchanged ModelCallerUntouched ModelLinearizable ModelOverlapRewritten 
 
 CHECK_DEADLOCK FALSE
